@@ -2,13 +2,13 @@
 (* Trace validation of the whole expand / check loop against Search.tla: one recorded search per run  *)
 (* (the universe U below is rewritten by the harness from the classes that search touched).            *)
 (*  trace (single JSON object in IOEnv.TRACE_FILE, one line):                                           *)
-(*   {tid, events:[{op:"packet", l, k, kind, nrules, nlabels} | {op:"check", ans}]}                     *)
+(*   {tid, events:[{op:"packet", l, k, s, i, kind, nrules, nlabels} | {op:"check", ans}]}                     *)
 (* Every event must be the corresponding action of Search.tla with the logged values: the packet handed *)
 (* out (label, slot), whether it was expanded, skipped (verified label) or the queue was exhausted, the  *)
 (* number of stored rule keys and of labels afterwards; the answer of every specification check.        *)
 EXTENDS Naturals, Sequences, FiniteSets, TLC, Json, IOUtils
-R(ch, pe, ip, wk, tw, sh, nf) == [ch |-> ch, pe |-> pe, ip |-> ip, wk |-> wk, tw |-> tw, sh |-> sh, nf |-> nf]
-U == [start |-> 0, empty |-> {}, verified |-> {1}, ninf |-> 0, ninit |-> 1, nexp |-> 1, nsym |-> 0, flavour |-> "base", inferral |-> <<>>, symm |-> <<>>, initial |-> (2 :> << <<R(<<1, 0>>, FALSE, TRUE, TRUE, TRUE, <<0, 1>>, TRUE)>> >>), expand |-> (0 :> << <<R(<<1, 2>>, TRUE, FALSE, TRUE, TRUE, <<0, 0>>, TRUE)>> >>)] \* @UNIVERSE@
+R(par, ch, pe, ip, wk, tw, rv, sh, nf) == [par |-> par, ch |-> ch, pe |-> pe, ip |-> ip, wk |-> wk, tw |-> tw, rv |-> rv, sh |-> sh, nf |-> nf]
+U == [start |-> 0, empty |-> {}, verified |-> {1}, ninf |-> 0, ninit |-> 1, nexps |-> <<1>>, nsym |-> 0, flavour |-> "base", reverse |-> FALSE, iterative |-> FALSE, inferral |-> <<>>, symm |-> <<>>, initial |-> (2 :> << <<R(2, <<1, 0>>, FALSE, TRUE, TRUE, TRUE, TRUE, <<0, 1>>, TRUE)>> >>), expand |-> (0 :> << << <<R(0, <<1, 2>>, TRUE, FALSE, TRUE, TRUE, TRUE, <<0, 0>>, TRUE)>> >> >>)] \* @UNIVERSE@
 VARIABLES store, empt, q, rules, keys, marks, tried, infx, symx, expanded, skipped, phase, checks, i
 INSTANCE Search
 Trace == ndJsonDeserialize(IOEnv.TRACE_FILE)[1]
@@ -18,7 +18,7 @@ TInit == SInit /\ i = 1
 TPacket == /\ i <= Len(Ev) /\ Ev[i].op = "packet"
            /\ LET r == PacketStep(Cur) IN
               /\ r.kind = Ev[i].kind
-              /\ (r.kind # "stop" => r.p.l = Ev[i].l /\ r.p.k = Ev[i].k)
+              /\ (r.kind # "stop" => r.p.l = Ev[i].l /\ r.p.k = Ev[i].k /\ r.p.s = Ev[i].s /\ r.p.i = Ev[i].i)
               /\ NKeys(r.s) = Ev[i].nrules /\ Len(r.s.store) = Ev[i].nlabels
            /\ Packet /\ i' = i + 1
 TCheck == /\ i <= Len(Ev) /\ Ev[i].op = "check"
